@@ -234,6 +234,12 @@ func runCheck(args []string) int {
 		for _, k := range pd.SweepKinds {
 			sk[k] = true
 		}
+		var otherClaims []string
+		for id, pl := range claimedPatternsByProp(verif) {
+			if id != pd.ID {
+				otherClaims = append(otherClaims, pl...)
+			}
+		}
 		for _, fn := range P.allFuncs {
 			if seen[fn] || !re.MatchString(fnDisplayName(fn)) || isTestutil(fn) {
 				continue
@@ -243,12 +249,26 @@ func runCheck(args []string) int {
 			if sp != nil && sp.Trusted {
 				continue
 			}
+			// the clauses of a contract that another property's check lists among its functions are
+			// discharged there; this sweep then only adds its own obligation kinds for that function
+			elsewhere := false
+			if sp != nil {
+				for _, pat := range otherClaims {
+					if matchFunc(pat, fn) {
+						elsewhere = true
+						break
+					}
+				}
+			}
 			r := P.Verify(fn, sp, hooks)
 			var keep []*Obl
 			for _, o := range r.Obls {
-				// a function with a contract also has to prove the contract's own clauses (invariants the
-				// frame obligations lean on); plain run-time safety kinds are left to C01
-				if sk[o.Kind] || (sp != nil && logicalKind[o.Kind]) {
+				// a function with a contract that no other check verifies also has to prove the contract's
+				// own clauses (invariants the frame obligations lean on); run-time safety kinds are C01's
+				if sk[o.Kind] || (sp != nil && !elsewhere && logicalKind[o.Kind]) {
+					if exclRe != nil && exclRe.MatchString(o.Name) {
+						continue
+					}
 					keep = append(keep, o)
 				}
 			}
@@ -731,8 +751,18 @@ func axiomGlobals(P *Program, a *Axiom) []string {
 
 // allClaimedPatterns: the union of the function lists of all property definitions.
 func allClaimedPatterns(verif string) []string {
-	files, _ := filepath.Glob(filepath.Join(verif, "props", "*.json"))
 	var out []string
+	for _, pl := range claimedPatternsByProp(verif) {
+		out = append(out, pl...)
+	}
+	return out
+}
+
+// claimedPatternsByProp: property id -> function patterns of its quick tier (a function that is only in a
+// thorough list is not verified on every run, so it does not count as verified elsewhere).
+func claimedPatternsByProp(verif string) map[string][]string {
+	files, _ := filepath.Glob(filepath.Join(verif, "props", "*.json"))
+	out := map[string][]string{}
 	for _, f := range files {
 		b, err := os.ReadFile(f)
 		if err != nil {
@@ -740,8 +770,7 @@ func allClaimedPatterns(verif string) []string {
 		}
 		var pd PropDef
 		if json.Unmarshal(b, &pd) == nil {
-			out = append(out, pd.Functions...)
-			out = append(out, pd.ThoroughFunctions...)
+			out[pd.ID] = append(out[pd.ID], pd.Functions...)
 		}
 	}
 	return out
